@@ -12,7 +12,7 @@ def main():
     args = [a for a in sys.argv[1:] if not a.startswith("--")]
     allchecks = "--all-checks" in sys.argv
     man = json.load(open(os.path.join(VERIF, "MANIFEST.json")))
-    claimed = [c["property_id"] for c in man["checks"]]
+    claimed = sorted(f[:-3] for f in os.listdir(os.path.join(VERIF, "lib", "props")) if f.startswith("C") and f.endswith(".py"))
     names = args or sorted(d for d in os.listdir(os.path.join(VERIF, "seeded")) if os.path.isdir(os.path.join(VERIF, "seeded", d)))
     assert sh("git -C %s status --porcelain" % REPO).stdout.strip() == "", "/repo is not clean"
     results = {}
